@@ -88,11 +88,15 @@ impl TraitCodegen<'_> {
         let where_clause = trait_generics.trait_where_clause();
         let unsafety = self.unsafety;
 
+        // An entraited trait keeps all of its attributes (docs, lints, ..);
+        // a generated trait only takes over the ones entrait knows how to re-apply.
+        let is_raw_trait = matches!(fn_input_mode, FnInputMode::RawTrait(_));
         let trait_sub_attributes = self.sub_attributes.iter().filter(|attr| {
-            matches!(
-                attr,
-                SubAttribute::AsyncTrait(_) | SubAttribute::Automock(_)
-            )
+            is_raw_trait
+                || matches!(
+                    attr,
+                    SubAttribute::AsyncTrait(_) | SubAttribute::Automock(_)
+                )
         });
 
         Ok(quote_spanned! { span=>
